@@ -31,8 +31,12 @@ CLAIMED = {
          'Model.Tx.toBytes = the BIP144/legacy wire Spec, parse(encode t) renders t field for field, re-encoding the parse gives the same bytes, '
          'txid/wtxid are the reversed double-SHA256 of the stripped/full encoding (SHA-256 a parameter). The four serialisers (TxWitnessInput/TxOutput/TxInput/'
          'Transaction.to_bytes) are re-translated on every run and proved equal to the model whenever the prefixed lengths are below 2^64 (tier T), so '
-         'serialisation = wire format is a theorem about the translated source; the parser (from_raw) is a hand model tied to the code by the correspondence run incl. the mainnet fixture transactions.',
-         NOTE_COMMON + 'SHA-256 is a parameter (driver instance checked against hashlib each run).', 'Lean 4 proof over translated source (serialisation) and hand model (parsing) + differential correspondence', '6/C01'),
+         'serialisation = wire format is a theorem about the translated source. The parsers (TxOutput/TxInput/Transaction.from_raw: cursor arithmetic, '
+         'struct.unpack_from, clamping slices, four loops whose counts come from the data) are likewise re-translated on every run and proved to '
+         'simulate the model parser: where the model returns a transaction the translated code returns the same one, where the model fails the '
+         'translated code raises (buffers < 2^63 bytes; the kind of exception is not compared); hence parse(encode t) and re-encoding hold of the translated '
+         'pair. get_txid/get_wtxid and the object plumbing are tied by the correspondence run incl. the mainnet fixture transactions.',
+         NOTE_COMMON + 'SHA-256 is a parameter (driver instance checked against hashlib each run); translator semantics trusted.', 'Lean 4 proof over translated source (serialisation and parsing) + differential correspondence', '6/C01'),
  'C16': ('Kernel-checked theorems: size = length of the full serialisation, vsize = ceil((3*stripped + full)/4) for any witness structure, '
          'legacy vsize = size; model in integer arithmetic, tied to get_size/get_vsize by the correspondence run (stacks of 0..300 items).',
          NOTE_COMMON + 'binary64 quarter arithmetic exact below 2^51 (assumed, exercised).', 'Lean 4 proof (hand model) + differential correspondence', '6/C16'),
